@@ -494,6 +494,19 @@ func (c *VCtx) applyContract(fr *Frame, st *State, cc *ssa.CallCommon, ct *FuncC
 			}
 		}
 		foreign := c.heapsOutOfReach(st, callee, args)
+		for _, g := range c.ghostMaps() {
+			// thread-local ghost maps change only through ghost statements the callee can reach
+			if g.kind == "local" && !c.mayAssignGhost(callee, g.name) {
+				foreign[g.heap] = c.heap(st, g.heap, g.sort)
+			}
+		}
+		for k, srt := range c.heapSorts {
+			if strings.HasPrefix(k, "G:writes:") || k == "G:calls" || strings.HasPrefix(k, "G:lm.") {
+				// bookkeeping of what THIS invocation has written / called (a callee's accesses are not mine) and the
+				// ghost variables of a local monitor (no other function can name them)
+				foreign[k] = c.heap(st, k, srt)
+			}
+		}
 		c.havocAll(st)
 		for k, v := range foreign {
 			st.heaps[k] = v
